@@ -216,6 +216,8 @@ RULES = [
     ('missing end', 'if {v > 0} begin on all'), ('missing end in routine', 'define o begin on all'),
     ('missing end in repeat', 'repeat 2 begin on all'), ('unbalanced brace', 'hue {1 + 2'), ('unbalanced brace 2', 'hue 1 + 2}'),
     ('unbalanced bracket', 'hue [f 1'), ('unbalanced parenthesis', 'hue {(1 + 2}'), ('unbalanced parenthesis 2', 'hue {1 + 2)}'),
+    ('hour 24', 'time at 24:00 on all'), ('hour 24 among alternatives', 'time at 6:00 or 24:05 on all'), ('hour 24 as a macro', 'define tp 24:15'),
+    ('minute 60', 'time at 7:60 on all'),
     ('malformed time pattern', 'time at 12:5 on all'), ('malformed time pattern 2', 'time at 25:00 on all'),
     ('malformed time pattern 3', 'time at **:00 on all'), ('malformed time pattern in define', 'define tp 25:00'),
     ('malformed time pattern in assign', 'assign tp 12:60'), ('malformed time pattern as macro', 'define tp 3*:00 time at tp on all'), ('minus before time pattern', 'time at -1:00 on all'),
@@ -399,6 +401,31 @@ def lexer_worker(args):
             res.nontrivial += 1
             if cat in ('compiler crash', 'silent rejection', 'vm crash'):
                 res.violation('compile|%s|%s' % (cat, sig_detail(detail)), '%s: %s\n  input: %r' % (cat, detail, text), inputs={'text': text}, replayed=True)
+    # the compiler *finishes*: long runs of one character after each kind of opening (catastrophic backtracking in a token
+    # pattern shows as time growing exponentially with the length of the run); each compile runs in a child with a time limit
+    pumps = ['"' + chr(92) * 60, '"' + 'a' * 60, '"' + (chr(92) + '"') * 30, '1' * 60 + ':', '*' * 60, '1' + '.' * 60, '{' * 60, '9' * 60 + 'x',
+             '"' + ' ' * 60, '<' * 60, 'a' * 60 + '"', '#' + chr(92) * 60, '8:' + '0' * 60, ('"' + chr(92)) * 30]
+    deep = ['hue ' + '{' * 3000 + '1', 'if 1 ' * 3000 + 'on all', 'hue ' + '(' * 3000, 'hue ' + '9' * 5000, 'hue 1.' + '9' * 5000, 'define f ' + 'f ' * 2000,
+            'hue ' + '[' * 3000, 'repeat ' * 3000, 'hue ' + '- ' * 3000 + '1', 'hue {' + 'not ' * 3000 + '1}', 'hue {1' + ' + 1' * 3000 + '}', 'hue {2' + ' ^ 2' * 3000 + '}']
+    for text in deep:
+        res.nontrivial += 1
+        kind, val = symx.run_in_child_timed(lambda: classify_text(text), 20)
+        if kind == 'timeout':
+            res.violation('compile|does not finish', 'the compiler did not finish within 20 s\n  input: %r...' % text[:60], inputs={'text': text[:200]}, replayed=True)
+        elif kind == 'error':
+            res.violation('compile|compiler crash|%s' % val.split(':')[0], 'compiler crash: %s\n  input: %r... (%d characters)' % (val[:200], text[:40], len(text)),
+                          inputs={'text': text[:200], 'length': len(text)}, replayed=True)
+        elif val[0] in ('compiler crash', 'silent rejection', 'vm crash'):
+            res.violation('compile|%s|%s' % (val[0], sig_detail(val[1])), '%s: %s\n  input: %r... (%d characters)' % (val[0], val[1], text[:40], len(text)),
+                          inputs={'text': text[:200], 'length': len(text)}, replayed=True)
+    for pump in pumps:
+        text = 'hue 120\nset ' + pump + '\non all'
+        res.nontrivial += 1
+        kind, val = symx.run_in_child_timed(lambda: classify_text(text), 10)
+        if kind == 'timeout':
+            res.violation('compile|does not finish', 'the compiler did not finish within 10 s\n  input: %r' % text, inputs={'text': text}, replayed=True)
+        elif kind == 'ok' and val[0] in ('compiler crash', 'silent rejection', 'vm crash'):
+            res.violation('compile|%s|%s' % (val[0], sig_detail(val[1])), '%s: %s\n  input: %r' % (val[0], val[1], text), inputs={'text': text}, replayed=True)
     res.sample({'lemma': 'every non-blank ASCII string up to length 8 is in L(_DEFAULT_SPEC), the last alternative of _TOKEN_SPEC', 'witness_texts': wit[:6]})
     return res
 
